@@ -124,12 +124,77 @@ func callRtypeMethod(fr *frame, m *rtypeMethod, args []value) value {
 		return rt.t.String()
 	case "NumMethod":
 		return types.NewMethodSet(rt.t).Len()
+	case "PkgPath":
+		if n, ok := rt.t.(*types.Named); ok && n.Obj().Pkg() != nil {
+			return n.Obj().Pkg().Path()
+		}
+		return ""
+	case "Comparable":
+		return types.Comparable(rt.t)
+	case "NumField":
+		st, ok := rt.t.Underlying().(*types.Struct)
+		if !ok {
+			panic(targetPanic{iface{types_String, "reflect: NumField of non-struct type " + rt.t.String()}})
+		}
+		return st.NumFields()
+	case "Field":
+		st, ok := rt.t.Underlying().(*types.Struct)
+		if !ok {
+			panic(targetPanic{iface{types_String, "reflect: Field of non-struct type " + rt.t.String()}})
+		}
+		k, ok := args[1].(int)
+		if !ok {
+			fr.ex().unsupported("reflect.Type.Field with a symbolic index")
+		}
+		if k < 0 || k >= st.NumFields() {
+			panic(targetPanic{iface{types_String, "reflect: Field index out of bounds"}})
+		}
+		sfT := reflectNamed(fr, "StructField")
+		sf := zero(sfT).(structure)
+		f := st.Field(k)
+		sf[fieldIndex(sfT, "Name")] = f.Name()
+		if !f.Exported() && f.Pkg() != nil {
+			sf[fieldIndex(sfT, "PkgPath")] = f.Pkg().Path()
+		}
+		sf[fieldIndex(sfT, "Type")] = iface{rtypeIfaceT, rtype{f.Type()}}
+		sf[fieldIndex(sfT, "Tag")] = st.Tag(k)
+		sf[fieldIndex(sfT, "Anonymous")] = f.Embedded()
+		return sf
+	case "MethodByName":
+		name := concStr(fr, args[1], "reflect.Type.MethodByName")
+		mT := reflectNamed(fr, "Method")
+		m := zero(mT).(structure)
+		ms := fr.i.prog.MethodSets.MethodSet(rt.t)
+		for k := 0; k < ms.Len(); k++ {
+			sel := ms.At(k)
+			if sel.Obj().Name() == name && sel.Obj().Exported() {
+				m[fieldIndex(mT, "Name")] = name
+				m[fieldIndex(mT, "Index")] = k
+				return tuple{m, true}
+			}
+		}
+		return tuple{m, false}
 	}
 	fr.ex().unsupported("reflect.Type." + m.name)
 	return nil
 }
 
+func reflectNamed(fr *frame, name string) types.Type {
+	pkg := fr.i.prog.ImportedPackage("reflect")
+	if pkg == nil || pkg.Type(name) == nil {
+		panic(engineErr{"reflect." + name + " not loaded"})
+	}
+	return pkg.Type(name).Type()
+}
+
 func init() {
+	intrinsics["(reflect.StructTag).Get"] = func(fr *frame, args []value) value {
+		return string(reflect.StructTag(concStr(fr, args[0], "StructTag.Get")).Get(concStr(fr, args[1], "StructTag.Get")))
+	}
+	intrinsics["(reflect.StructTag).Lookup"] = func(fr *frame, args []value) value {
+		v, ok := reflect.StructTag(concStr(fr, args[0], "StructTag.Lookup")).Lookup(concStr(fr, args[1], "StructTag.Lookup"))
+		return tuple{v, ok}
+	}
 	intrinsics["reflect.ValueOf"] = func(fr *frame, args []value) value {
 		a := args[0].(iface)
 		if a.t == nil {
